@@ -111,17 +111,18 @@ Record stream := mkStream {
   src_on : bool;                  (* the source thread of this acquisition has been created *)
   goal : N;                       (* max_frame_count when the source thread was created *)
   mon_fresh : bool;               (* the monitor reader was registered and drained when the storage was last started *)
+  dropped : bool;                 (* a commit of this acquisition's source was refused (writes were not accepted) *)
   cam_starts : nat; cam_stops : nat; sto_starts : nat; sto_stops : nat  (* device-call counters (life cycle) *)
 }.
 #[export] Instance etaStream : Settable _ := settable! mkStream
   <valid; maxn; cam; cam_st; sto; sto_st; cam_tag; cam_next; log; accepting; sink_reg; sink_cur; sink_map;
    mon_reg; mon_cur; mon_map; src_stopping; abort_win; sink_stopping; filt_stopping; src_running; sink_running;
-   filt_running; s_pc; k_pc; f_pc; c_stop; c_start; iframe; base; delivered; stored; sto_failed; seen; aborted; cam_failed; acq_on; src_on; goal; mon_fresh;
+   filt_running; s_pc; k_pc; f_pc; c_stop; c_start; iframe; base; delivered; stored; sto_failed; seen; aborted; cam_failed; acq_on; src_on; goal; mon_fresh; dropped;
    cam_starts; cam_stops; sto_starts; sto_stops>.
 
 Definition init_stream : stream :=
   mkStream false 0 None HAwait None HAwait 0 0 [] true false 0 None false 0 None
-           false false false false false false false SOff KOff FOff CNone TNone 0 0 [] [] false [] false false false false 0 false 0 0 0 0.
+           false false false false false false false SOff KOff FOff CNone TNone 0 0 [] [] false [] false false false false 0 false false 0 0 0 0.
 
 (* ------------------------------------------------------------------------------------------------ helpers *)
 Definition seg (l : list frm) (from n : nat) : list frm := firstn n (skipn from l).
@@ -189,7 +190,7 @@ Definition step_stream (s : stream) (a : actor) (e : sev) : option stream :=
   | ACli, Spawn RSrc =>
       guard (spc_idle (s_pc s) && hst_eqb (cam_st s) HRunning && match c_start s with TCamStarted => true | _ => false end)
             (s <| src_stopping := false |> <| abort_win := false |> <| src_running := true |> <| s_pc := SLoop |>
-               <| iframe := 0%N |> <| src_on := true |> <| goal := maxn s |> <| c_start := TDone |>)
+               <| iframe := 0%N |> <| src_on := true |> <| goal := maxn s |> <| dropped := false |> <| c_start := TDone |>)
   (* ---------------- source thread *)
   | ASrc, WMapEnter =>
       guard (match s_pc s with SLoop => true | _ => false end && negb (src_stopping s) && N.ltb (iframe s) (maxn s))
@@ -208,7 +209,7 @@ Definition step_stream (s : stream) (a : actor) (e : sev) : option stream :=
             (s <| s_pc := SFailStop |> <| cam_failed := true |>)
   | ASrc, Commit ok f =>
       guard (match s_pc s with SGot f' => frm_eqb f f' | _ => false end && Bool.eqb ok (accepting s))
-            (if ok then s <| log := log s ++ [f] |> <| s_pc := SLoop |> else s <| s_pc := SLoop |>)
+            (if ok then s <| log := log s ++ [f] |> <| s_pc := SLoop |> else s <| dropped := true |> <| s_pc := SLoop |>)
   | ASrc, CbStopFilter =>
       guard (match s_pc s with
              | SLoop => src_stopping s || abort_win s || N.leb (maxn s) (iframe s)
@@ -335,24 +336,24 @@ Definition step_stream (s : stream) (a : actor) (e : sev) : option stream :=
   | ACli, DStoStop i =>                (* storage_close stops a device that is still running *)
       guard (optN_eqb (sto s) i && hst_eqb (sto_st s) HRunning && quiet s) (s <| sto_st := HArmed |> <| sto_stops ::= S |>)
   (* ---------------- the monitor reader (acquire_map_read / acquire_unmap_read, and acquire_stop's flush) *)
-  | ACli, MonMapRefused => guard (match mon_map s with Some _ => true | None => false end) s
+  | ACli, MonMapRefused => guard (match mon_map s with Some _ => true | None => false end && match c_stop s with CNone => true | _ => false end) s
   | ACli, RMapEnter RdMon =>
       match c_stop s with
       | CFlush => Some (s <| c_stop := CFlushMapping |>)
-      | CNone | CStopped => guard (match mon_map s with None => true | _ => false end) s
+      | CNone => guard (match mon_map s with None => true | _ => false end) s
       | _ => None
       end
   | ACli, RMap RdMon fs =>
       let k := length fs in
       let j := if mon_reg s then mon_cur s else match fs with [] => length (log s) | f :: _ => find_idx f (log s) end in
       match c_stop s, mon_map s with
-      | (CNone | CStopped | CFlushMapping), None =>
+      | (CNone | CFlushMapping), None =>
           guard (read_ok (log s) j fs)
                 (s <| mon_reg := true |> <| mon_cur := j |> <| mon_map := if Nat.eqb k 0 then None else Some k |>
                    <| c_stop := match c_stop s with CFlushMapping => CFlushMapped k | p => p end |>)
       | _, _ => None
       end
-  | ACli, MonMapRet ok => guard ok s
+  | ACli, MonMapRet ok => guard (ok && match c_stop s with CNone => true | _ => false end) s
   | ACli, RUnmap RdMon c =>
       let k := match mon_map s with Some k => k | None => 0 end in
       let c' := Nat.min c k in
@@ -360,7 +361,7 @@ Definition step_stream (s : stream) (a : actor) (e : sev) : option stream :=
       match c_stop s with
       | CFlush0 => guard (Nat.leb k c) (s' <| c_stop := CFlush |>)
       | CFlushMapped k' => guard (Nat.leb k c) (s' <| c_stop := if Nat.eqb k' 0 then CStopped else CFlush |>)
-      | CNone | CStopped => Some s'
+      | CNone => Some s'
       | _ => None
       end
   | _, _ => None
@@ -398,6 +399,9 @@ Definition fail_start (s : stream) : stream :=
   else s.
 Definition is_start_failure (e : sev) : bool :=
   match e with DStoStart _ false | DCamStart _ false _ => true | _ => false end.
+(* acquire_start's error path stops every valid stream's camera; its storage was stopped by its sink thread *)
+Definition devs_stopped (s : stream) : bool :=
+  negb (valid s) || (negb (hst_eqb (cam_st s) HRunning) && negb (hst_eqb (sto_st s) HRunning)).
 Definition all_closed (s : stream) : bool :=
   match cam s, sto s with None, None => true | _, _ => false end.
 Definition hmax (a b : hst) : hst :=
@@ -439,7 +443,7 @@ Definition step (y : sys) (ev : event) : option sys :=
                    then Some (y <| in_call := InIdle |> <| api := HRunning |>
                                 <| st0 ::= set c_start (fun _ => TNone) |> <| st1 ::= set c_start (fun _ => TNone) |>)
                    else None
-      | InStartFail => if negb ok && stopped_ok (st0 y) && stopped_ok (st1 y)
+      | InStartFail => if negb ok && stopped_ok (st0 y) && stopped_ok (st1 y) && devs_stopped (st0 y) && devs_stopped (st1 y)
                        then Some (y <| in_call := InIdle |> <| api := HAwait |> <| st0 ::= end_stop |> <| st1 ::= end_stop |>)
                        else None
       | _ => None
